@@ -193,7 +193,9 @@ def run(tier):
             elif rep_tag != "q" or Fr(rep) != Fr(a["value"]):
                 bad = f"reported {rep} ({rep_tag}), limit of the conditional sequence is {a['value']}"
         elif kind == "infinite":
-            if rep_tag != "infinite":
+            if rep_tag == "divergent":
+                chk.count("after-loop:divergence-reported-as-unbounded-range")
+            elif rep_tag != "infinite":
                 bad = f"reported {rep} ({rep_tag}) but the conditional sequence diverges"
         else:
             chk.count("after-loop:" + kind)
